@@ -167,6 +167,44 @@ RollingKmers(b, k, codes) ==
       step(acc, i) == Append(acc, (acc[Len(acc)] - codes[i - 1] * Pow(b, k - 1)) * b + codes[i + k - 1])
   IN FoldLeft(step, <<first>>, [i \in 1..(m - 1) |-> i + 1])
 
+(* Large k.  TLC integers are 32 bit, so a k-mer code n with b^k >= 2^31 cannot be written as a
+   number.  The radix definition is stated on the base-b digits instead: the code of a k-mer is
+   THE number whose k base-b digits (most significant first) are the symbol codes of the k-mer.
+   In this "digit form" a code is the sequence of its k digits; the driver converts the int64
+   the library returns into its digits (a longer sequence when the value is >= b^k, a leading
+   -1 when it is negative - both are never expected).  Law_Digits ties the digit form to the
+   integer form wherever the latter is expressible.
+   Codes are int64 in the library: k is restricted to b^k <= 2^62, stated with the bit length
+   of b so that TLC can evaluate it.                                                        *)
+Bits(b) == CHOOSE t \in 1..16 : Pow(2, t) >= b /\ (t = 1 \/ Pow(2, t - 1) < b)
+Dom_KmerWidth(b, k) == b >= 2 /\ b <= 65536 /\ k >= 2 /\ k * Bits(b) <= 62
+ValidDigits(b, k, d) == Len(d) = k /\ \A i \in DOMAIN d : 0 <= d[i] /\ d[i] < b
+FuseD(b, k, kmer) ==
+  IF Len(kmer) # k THEN R("Rejected", <<>>)
+  ELSE IF \E i \in DOMAIN kmer : ~(0 <= kmer[i] /\ kmer[i] < b) THEN R("AlphabetError", <<>>)
+  ELSE R("ok", kmer)
+\* the code is given by its digits; k+1 digits <<1, 0, ..., 0>> = b^k, the first invalid code
+SplitD(b, k, d) == IF ValidDigits(b, k, d) THEN R("ok", d) ELSE R("AlphabetError", <<>>)
+Window(k, sp, codes, i) == [j \in 1..k |-> codes[i + Offsets(k, sp)[j]]]
+CreateKmersD(b, k, sp, codes) ==
+  LET m == Len(codes) - Span(k, sp) + 1 IN
+  IF m < 1 THEN R("Rejected", <<>>)
+  ELSE IF \E i \in 1..m : \E j \in 1..k : Window(k, sp, codes, i)[j] >= b THEN R("AlphabetError", <<>>)
+  ELSE R("ok", [i \in 1..m |-> Window(k, sp, codes, i)])
+\* implementation-shaped rolling update on digits: prev - lead * b^(k-1) clears the leading
+\* digit (it IS lead), * b shifts every digit one place up, + code fills the last place
+RollD(prev, lead, code) == IF prev[1] = lead THEN Tail(prev) \o <<code>> ELSE <<-1>> \o prev
+RollingKmersD(k, codes) ==
+  LET m == Len(codes) - k + 1
+      step(acc, i) == Append(acc, RollD(acc[Len(acc)], codes[i - 1], codes[i + k - 1]))
+  IN FoldLeft(step, <<SubSeq(codes, 1, k)>>, [i \in 1..(m - 1) |-> i + 1])
+KEncodeD(alph, k, syms) ==
+  IF ~(\A i \in DOMAIN syms : InAlph(alph, syms[i])) THEN R("AlphabetError", <<>>)
+  ELSE FuseD(Len(alph), k, EncodeMultiple(alph, syms).out)
+KDecodeD(alph, k, d) ==
+  LET r == SplitD(Len(alph), k, d) IN
+  IF r.oc # "ok" THEN r ELSE R("ok", [i \in 1..k |-> SymOf(alph, r.out[i])])
+
 \* the k-mer alphabet over a base alphabet: symbols are k-tuples of base symbols
 KEncode(alph, k, syms) ==
   IF ~(\A i \in DOMAIN syms : InAlph(alph, syms[i])) THEN R("AlphabetError", <<>>)
@@ -193,6 +231,73 @@ Construct(S, kind, alph, syms) ==
 
 PickSeq(s, pos) == [i \in DOMAIN pos |-> s[pos[i] + 1]]
 
+(* Index forms.  An index object is <<kind, payload, form>> (PyIndex.Resolve reads the first two
+   components): the form says in which of the shapes numpy accepts the index is handed over -
+   a Python int or a numpy integer scalar of some width, a Python list or an integer ndarray of
+   some dtype, a bool ndarray or a list of bools, a slice with Python or numpy integer bounds.
+   The meaning of a call never depends on the form; the call universes enumerate every
+   admissible form (Dom_Form) so that the real objects are exercised with each of them.      *)
+IntForms   == {"py", "i8", "i16", "i32", "i64", "u8", "u16", "u32", "u64"}
+ArrForms   == {"list", "i8", "i16", "i32", "i64", "u8", "u16", "u32", "u64"}
+MaskForms  == {"np", "list"}
+SliceForms == {"py", "np"}
+UnsignedForm(f) == f \in {"u8", "u16", "u32", "u64"}
+FormsOf(kind) == CASE kind = "int" -> IntForms [] kind = "arr" -> ArrForms
+                   [] kind = "mask" -> MaskForms [] kind = "slice" -> SliceForms
+\* unsigned forms hold no negative value; an empty Python list is not an integer/bool index
+\* (numpy reads [] as a float array)
+Dom_Form(idx) ==
+  /\ Len(idx) = 3 /\ idx[3] \in FormsOf(idx[1])
+  /\ (idx[1] \in {"int", "arr"} /\ UnsignedForm(idx[3]) => \A i \in DOMAIN idx[2] : idx[2][i] >= 0)
+  /\ (idx[1] \in {"arr", "mask"} /\ idx[3] = "list" => Len(idx[2]) >= 1)
+WithForms(X, F) == {<<x[1], x[2], f>> : x \in X, f \in F}
+Formed(X, FI, FA, FM, FS) ==       \* every index of X in every admissible form of the given sets
+  {y \in UNION {WithForms({x}, CASE x[1] = "int" -> FI [] x[1] = "arr" -> FA
+                                 [] x[1] = "mask" -> FM [] x[1] = "slice" -> FS) : x \in X} : Dom_Form(y)}
+
+SetSym(S, i, s) ==
+  IF ~InAlph(S.alph, s) /\ ~InRange(i, Len(S.codes)) THEN Fail(S, "Rejected")   \* either error
+  ELSE IF ~InAlph(S.alph, s) THEN Fail(S, "AlphabetError")
+  ELSE IF ~InRange(i, Len(S.codes)) THEN Fail(S, "IndexError")
+  ELSE Res(Seq0(S.kind, S.alph, [S.codes EXCEPT ![WrapOne(i, Len(S.codes)) + 1] = CodeOf(S.alph, s)]),
+           "ok", <<>>)
+Reversed(S) == Res(Seq0(S.kind, S.alph, [i \in DOMAIN S.codes |-> S.codes[Len(S.codes) + 1 - i]]), "ok", <<>>)
+Complemented(S) ==
+  Res(Seq0(S.kind, S.alph, [i \in DOMAIN S.codes |-> CodeOf(S.alph, ComplSym(SymOf(S.alph, S.codes[i])))]),
+      "ok", <<>>)
+Added(S, al, syms) ==
+  LET oc2 == EncodeMultiple(al, syms).out IN
+  IF Extends(S.alph, al) THEN Res(Seq0(S.kind, S.alph, S.codes \o oc2), "ok", <<>>)
+  ELSE IF Extends(al, S.alph) THEN Res(Seq0(S.kind, al, S.codes \o oc2), "ok", <<>>)
+  ELSE Fail(S, "Rejected")
+
+(* Independence.  copy(), reverse(), complement() and + return a NEW sequence: like a new string
+   it does not change when the sequence it was made from (or the other operand of +) is written
+   to afterwards, and writing to it changes neither of them.  A history of three calls is one
+   case:  derive (dop, da);  assign symbol w[2] at index w[1] of one of the objects - side "res"
+   (the derived sequence), "src" (the sequence at hand), "other" (the right operand of +);  read
+   both strings.  Whether a sub-sequence obtained by indexing shares memory with its source is
+   left open (numpy view semantics), so indexing is no derive operation.                    *)
+DeriveOps == {"copy", "reverse", "complement", "add"}
+Derive(S, dop, da) ==
+  CASE dop = "copy" -> Res(S, "ok", <<>>)
+    [] dop = "reverse" -> Reversed(S)
+    [] dop = "complement" -> Complemented(S)
+    [] dop = "add" -> Added(S, da[1], da[2])
+Dom_Indep(S, a) ==
+  /\ a[1] \in DeriveOps /\ a[3] \in {"res", "src", "other"}
+  /\ (a[1] = "complement" => S.kind = "nuc")
+  /\ (a[1] = "add" => AllIn(a[2][1], a[2][2]) /\ Derive(S, a[1], a[2]).oc = "ok")
+  /\ (a[3] = "other" => a[1] = "add")
+Indep(S, a) ==
+  LET D  == Derive(S, a[1], a[2])
+      DS == Seq0(D.kind, D.alph, D.codes)
+      O  == IF a[1] = "add" THEN Seq0(S.kind, a[2][1], EncodeMultiple(a[2][1], a[2][2]).out) ELSE S
+      W  == SetSym(CASE a[3] = "res" -> DS [] a[3] = "src" -> S [] a[3] = "other" -> O, a[4][1], a[4][2])
+      S2 == IF a[3] = "src" THEN Seq0(W.kind, W.alph, W.codes) ELSE S      \* a refused write changes nothing
+      D2 == IF a[3] = "res" THEN Seq0(W.kind, W.alph, W.codes) ELSE DS
+  IN Res(S2, W.oc, IF W.oc = "ok" THEN [src |-> Symbols(S2), res |-> Symbols(D2)] ELSE <<>>)
+
 Apply(S, op, a) ==
   CASE op = "construct" -> Construct(S, a[1], a[2], a[3])
     [] op = "str"   -> Res(S, "ok", Symbols(S))
@@ -202,12 +307,7 @@ Apply(S, op, a) ==
          IF ~r.ok THEN Fail(S, IF a[1][1] \in {"int", "arr"} THEN "IndexError" ELSE "Rejected")
          ELSE IF r.scalar THEN Res(S, "ok", SymOf(S.alph, S.codes[r.pos[1] + 1]))
          ELSE Res(Seq0(S.kind, S.alph, PickSeq(S.codes, r.pos)), "ok", <<>>)
-    [] op = "setsym" ->                                  \* a = <<int index, symbol>>
-         IF ~InAlph(S.alph, a[2]) /\ ~InRange(a[1], Len(S.codes)) THEN Fail(S, "Rejected")   \* either error
-         ELSE IF ~InAlph(S.alph, a[2]) THEN Fail(S, "AlphabetError")
-         ELSE IF ~InRange(a[1], Len(S.codes)) THEN Fail(S, "IndexError")
-         ELSE Res(Seq0(S.kind, S.alph, [S.codes EXCEPT ![WrapOne(a[1], Len(S.codes)) + 1] = CodeOf(S.alph, a[2])]),
-                  "ok", <<>>)
+    [] op = "setsym" -> SetSym(S, a[1], a[2])            \* a = <<int index, symbol, form of the index>>
     [] op = "setmany" ->                                 \* a = <<index object, symbols>>, lengths agree
          LET r == Resolve(a[1], Len(S.codes)) IN
          IF ~AllIn(S.alph, a[2]) THEN Fail(S, "AlphabetError")
@@ -216,18 +316,13 @@ Apply(S, op, a) ==
                           IF \E j \in DOMAIN r.pos : r.pos[j] = i - 1
                             THEN CodeOf(S.alph, a[2][CHOOSE j \in DOMAIN r.pos : r.pos[j] = i - 1])
                             ELSE S.codes[i]]), "ok", <<>>)
-    [] op = "add" ->                                     \* a = <<other alphabet, other symbols>>
-         LET oc2 == EncodeMultiple(a[1], a[2]).out IN
-         IF Extends(S.alph, a[1]) THEN Res(Seq0(S.kind, S.alph, S.codes \o oc2), "ok", <<>>)
-         ELSE IF Extends(a[1], S.alph) THEN Res(Seq0(S.kind, a[1], S.codes \o oc2), "ok", <<>>)
-         ELSE Fail(S, "Rejected")
-    [] op = "reverse" -> Res(Seq0(S.kind, S.alph, [i \in DOMAIN S.codes |-> S.codes[Len(S.codes) + 1 - i]]), "ok", <<>>)
+    [] op = "add" -> Added(S, a[1], a[2])                \* a = <<other alphabet, other symbols>>
+    [] op = "reverse" -> Reversed(S)
+    [] op = "indep" -> Indep(S, a)                       \* a = <<derive op, its arguments, side, <<index, symbol, form>>>>
     [] op = "eq" -> Res(S, "ok", Symbols(S) = a[1])      \* a = <<symbols of a sequence of the same type and alphabet>>
     [] op = "copy" -> Res(S, "ok", [eq |-> TRUE, indep |-> TRUE])
     [] op = "isvalid" -> Res(S, "ok", TRUE)
-    [] op = "complement" ->
-         Res(Seq0(S.kind, S.alph, [i \in DOMAIN S.codes |-> CodeOf(S.alph, ComplSym(SymOf(S.alph, S.codes[i])))]),
-             "ok", <<>>)
+    [] op = "complement" -> Complemented(S)
     [] op = "setcode" ->                                 \* a = <<codes>>, all valid
          Res(Seq0(S.kind, S.alph, a[1]), "ok", <<>>)
     (* ---- pure calls (S is ignored and returned unchanged) ---- *)
@@ -257,6 +352,12 @@ Apply(S, op, a) ==
     [] op = "kencode" -> LET r == KEncode(a[1], a[2], a[3]) IN Res(S, r.oc, r.out)   \* <<base alphabet, k, symbols>>
     [] op = "kdecode" -> LET r == KDecode(a[1], a[2], a[3]) IN Res(S, r.oc, r.out)   \* <<base alphabet, k, code>>
     [] op = "kmers"   -> LET r == CreateKmers(a[1], a[2], a[3], a[4]) IN Res(S, r.oc, r.out)  \* <<b,k,sp,codes>>
+    (* ---- the same k-mer calls with codes in digit form (any k with b^k <= 2^62) ---- *)
+    [] op = "fuse_d"    -> LET r == FuseD(a[1], a[2], a[3]) IN Res(S, r.oc, r.out)
+    [] op = "split_d"   -> LET r == SplitD(a[1], a[2], a[3]) IN Res(S, r.oc, r.out)
+    [] op = "kencode_d" -> LET r == KEncodeD(a[1], a[2], a[3]) IN Res(S, r.oc, r.out)
+    [] op = "kdecode_d" -> LET r == KDecodeD(a[1], a[2], a[3]) IN Res(S, r.oc, r.out)
+    [] op = "kmers_d"   -> LET r == CreateKmersD(a[1], a[2], a[3], a[4]) IN Res(S, r.oc, r.out)
 
 (* ------------------------------------------------------------------ laws (S1) *)
 Law_RoundTrip(alph, syms) ==
@@ -295,6 +396,20 @@ Law_KmerSymbols(alph, k) ==
 Law_Rolling(b, k, codes) ==
   (Len(codes) >= k /\ \A i \in DOMAIN codes : codes[i] < b) =>
      RollingKmers(b, k, codes) = CreateKmers(b, k, <<>>, codes).out
+\* digit form = integer form wherever the integer form is expressible
+Law_Digits(b, k) ==
+  /\ \A n \in 0..(Pow(b, k) - 1) :
+        LET d == Split(b, k, n).out IN
+        /\ SplitD(b, k, d) = R("ok", d) /\ FuseD(b, k, d) = R("ok", d) /\ FuseVal(b, d) = n
+  /\ SplitD(b, k, <<1>> \o [i \in 1..k |-> 0]).oc = "AlphabetError"
+  /\ FuseVal(b, <<1>> \o [i \in 1..k |-> 0]) = Pow(b, k)
+Law_KmersD(b, k, sp, codes) ==
+  LET I == CreateKmers(b, k, sp, codes)  D == CreateKmersD(b, k, sp, codes) IN
+  /\ I.oc = D.oc
+  /\ (I.oc = "ok" => I.out = [i \in DOMAIN D.out |-> FuseVal(b, D.out[i])])
+Law_RollingD(b, k, codes) ==
+  (Len(codes) >= k /\ \A i \in DOMAIN codes : codes[i] >= 0 /\ codes[i] < b) =>
+     RollingKmersD(k, codes) = CreateKmersD(b, k, <<>>, codes).out
 
 (* documented examples *)
 ASSUME Encode(<<65, 67, 71, 84>>, 71) = R("ok", 2) /\ Decode(<<65, 67, 71, 84>>, 2) = R("ok", 71)
@@ -311,4 +426,14 @@ ASSUME CreateKmers(4, 2, <<>>, <<0, 3, 3, 2, 1, 3>>) = R("ok", <<3, 15, 14, 9, 7
 ASSUME RollingKmers(4, 2, <<0, 3, 3, 2, 1, 3>>) = <<3, 15, 14, 9, 7>>
 ASSUME CreateKmers(4, 2, <<<<0, 3>>>>, <<0, 3, 3, 2, 1, 3>>) = R("ok", <<2, 13, 15>>)
 ASSUME CreateKmers(4, 2, <<>>, <<0, 1, 2, 3>>) = R("ok", <<1, 6, 11>>)
+ASSUME CreateKmersD(4, 2, <<>>, <<0, 3, 3, 2, 1, 3>>) = R("ok", <<<<0, 3>>, <<3, 3>>, <<3, 2>>, <<2, 1>>, <<1, 3>>>>)
+ASSUME CreateKmersD(4, 2, <<<<0, 3>>>>, <<0, 3, 3, 2, 1, 3>>) = R("ok", <<<<0, 2>>, <<3, 1>>, <<3, 3>>>>)
+ASSUME RollingKmersD(2, <<0, 3, 3, 2, 1, 3>>) = CreateKmersD(4, 2, <<>>, <<0, 3, 3, 2, 1, 3>>).out
+ASSUME Bits(2) = 1 /\ Bits(3) = 2 /\ Bits(4) = 2 /\ Bits(5) = 3 /\ Bits(24) = 5 /\ Bits(94) = 7 /\ Bits(256) = 8
+ASSUME Dom_KmerWidth(4, 31) /\ ~Dom_KmerWidth(4, 32) /\ Dom_KmerWidth(24, 12) /\ ~Dom_KmerWidth(24, 13)
+\* reverse() docstring: ACGTA -> ATGCA; the reversed copy is independent of its source
+ASSUME Indep(Seq0("nuc", NucUnamb, <<1>>), <<"reverse", <<>>, "res", <<0, 65, "py">>>>).out
+         = [src |-> <<67>>, res |-> <<65>>]
+ASSUME Indep(Seq0("nuc", NucUnamb, <<0, 1>>), <<"add", <<NucUnamb, <<71>>>>, "src", <<-1, 84, "i64">>>>).out
+         = [src |-> <<65, 84>>, res |-> <<65, 67, 71>>]
 =============================================================================
